@@ -1,5 +1,7 @@
 From Coq Require Import Extraction ExtrOcamlBasic NArith List.
-From MV Require Import Base.PyStr XRef.Path XRef.XRefModel.
+From MV Require Import Base.PyStr.
+From MV Require Import XRef.Path.
+From MV Require Import XRef.XRefModel.
 Extraction Language OCaml.
 Extraction "model.ml" N.succ N.to_nat
   split_on before after normpath pjoin docname_join path_root path_parts relfn2path path2doc
